@@ -53,15 +53,18 @@ theorem joinLines_snoc_nil (ls : List (List Char)) : joinLines (ls ++ [[]]) = te
       simp only [List.cons_append, joinLines] at ih ⊢
       rw [ih]; simp [termLines]
 
+/-- with the documented format spec `'{:<10}'` (no fill character, left-aligned) a cell is its text followed by blanks -/
+theorem padCell_eq (w : Word) : padCell w = w ++ List.replicate (Gen.C02.cellWidth - w.length) ' ' := rfl
+
 theorem render_rowItems (r : List Word) : render (rowItems r) = rowText r := by
   induction r with
   | nil => rfl
   | cons w r ih =>
     cases r with
-    | nil => simp [rowItems, render, rowText, sepJoin, padCell, padOf, Gen.C02.cellWidth]
+    | nil => simp [rowItems, render, rowText, sepJoin, padCell_eq, padOf, Gen.C02.cellWidth]
     | cons w' r' =>
       simp only [rowItems, render, rowText, List.map_cons, sepJoin] at ih ⊢
-      rw [ih]; simp [padCell, padOf, Gen.C02.cellWidth, Gen.C02.cellSep]
+      rw [ih]; simp [padCell_eq, padOf, Gen.C02.cellWidth, Gen.C02.cellSep]
 
 theorem rowLine_text (r : List Word) : (rowLineOf r).text = rowText r := by
   simp [rowLineOf, Line.text, render_rowItems]
